@@ -87,7 +87,10 @@ fn types() -> Vec<T> {
 // value as written -> (tokens, text stored)
 fn values() -> Vec<(Vec<&'static str>, &'static str)> {
     vec![(vec!["1"], "1"), (vec!["-.5f"], "-.5f"), (vec!["+12.25"], "+12.25"), (vec!["\"a b // c /* d\""], "\"a b // c /* d\""), (vec!["true"], "true"), (vec!["{", "}"], "{}"),
-         (vec!["{", "1", "2", ",", "3", ",", "}"], "{...}"), (vec!["A", ".", "B"], "A.B")]
+         (vec!["{", "1", "2", ",", "3", ",", "}"], "{...}"), (vec!["A", ".", "B"], "A.B"),
+         // string literals: a backslash is an ordinary character, the literal ends at the next quote; every other printable character is verbatim
+         (vec!["\"\\\""], "\"\\\""), (vec!["\"C:\\tmp\\\""], "\"C:\\tmp\\\""), (vec!["\"\\n\\\\\""], "\"\\n\\\\\""),
+         (vec!["\"!#$%&'()*+,-./:;<=>?@[\\]^_`{|}~ \t\u{e9}\u{4e2d}\""], "\"!#$%&'()*+,-./:;<=>?@[\\]^_`{|}~ \t\u{e9}\u{4e2d}\""), (vec!["\"\""], "\"\"")]
 }
 
 fn interface_docs() -> Vec<Doc> {
@@ -147,7 +150,7 @@ fn parcelable_docs() -> Vec<Doc> {
 
 #[test]
 fn c02_all() {
-    let seps = [" ", "  \t", "\n", "\r\n", " /* \u{e9}\u{4e2d} ; { */ ", " // c ; }\n", "/** banner **/", "/***/ /**/\t", ""];
+    let seps = [" ", "  \t", "\n", "\r\n", " /* \u{e9}\u{4e2d} ; { */ ", " // c ; }\n", "/** banner **/", "/***/ /**/\t", " /* \" \\ */ ", " // \" \\\n", ""];
     let mut out: Vec<String> = Vec::new();
     let mut evals = 0usize;
     let mut docs = interface_docs();
@@ -189,6 +192,6 @@ fn c02_all() {
     }
     out.sort(); out.dedup();
     for w in out.iter().take(12) { println!("{}", w.chars().take(900).collect::<String>()); }
-    println!("ORACLE-STATS evaluations={} distinct={} rule=one document in one layout each: {} generated documents (18 type shapes in return / argument / field / constant position, 8 value forms, annotations with parameters, near-keyword names, qualified names written with spaces) x 8 separators between all tokens; the tree's shape (no positions, no documentation, no resolved kinds) must equal the shape rendered from the same description", evals, evals, ndocs);
+    println!("ORACLE-STATS evaluations={} distinct={} rule=one document in one layout each: {} generated documents (18 type shapes in return / argument / field / constant position, 13 value forms (string literals with backslashes and every printable ASCII character), annotations with parameters, near-keyword names, qualified names written with spaces) x 10 separators between all tokens (two with a quote and a backslash inside a comment) + compact; the tree's shape (no positions, no documentation, no resolved kinds) must equal the shape rendered from the same description", evals, evals, ndocs);
     assert!(out.is_empty(), "witness found");
 }
